@@ -512,7 +512,16 @@ static string opCompl(const vector<string>& a)
 	for (const RuleT& r : t.rules) A.AddTransition(r.kids, r.sym, r.parent);
 	for (size_t f : t.finals) A.SetStateFinal(f);
 	TA C = A.Complement();
-	return "C=" + dumpTA(C) + " A=" + dumpTA(A);
+	string out = "C=" + dumpTA(C);
+	// the alphabet GROWS (another automaton registers a new nullary symbol in the same alphabet object) and the same automaton is
+	// complemented again in the same process: the complement is now over the larger alphabet
+	{
+		auto transl = alph->GetSymbolTransl();
+		size_t code = (*transl)(TA::StringRank("s" + std::to_string(ranks.size()), 0));
+		if (code != ranks.size()) throw std::runtime_error("alphabet numbering (extension)");
+	}
+	TA C2 = A.Complement();
+	return out + " C2=" + dumpTA(C2) + " A=" + dumpTA(A);
 }
 
 struct MapReindex : public AbstractReindexF
